@@ -30,6 +30,10 @@ class Elem(AbstractFiniteElement):
         subdegree=None,
         rep=None,
     ):
+        if isinstance(sobolev_space, str):
+            import ufl.sobolevspace as _ss
+
+            sobolev_space = getattr(_ss, sobolev_space)
         self._family = family
         self._cell = cell
         self._degree = degree
@@ -39,7 +43,8 @@ class Elem(AbstractFiniteElement):
         self._subs = list(sub_elements)
         self._subdegree = degree if subdegree is None else subdegree
         self._rep = rep or (
-            f"Elem({family!r}, {cell!r}, {degree}, {self._rvs}, {pullback!r}, {sobolev_space!r}"
+            # NB: the name only: SobolevSpace.__repr__ lists a frozenset, whose order depends on PYTHONHASHSEED
+            f"Elem({family!r}, {cell!r}, {degree}, {self._rvs}, {pullback!r}, {sobolev_space.name!r}"
             + (f", {self._subs!r}" if self._subs else "")
             + ")"
         )
